@@ -500,3 +500,55 @@ def truth_table(ev, expr, atom_of, nvars=None):
         env = dict(zip(names, vals))
         table[vals] = bool(interp.run(e, env))
     return names, table
+
+
+class Brk(Exception):
+    pass
+
+
+class FxInterp(Interp):
+    """Interp that also records the effects of a statement fragment: assignments (to a
+    local or a field, keyed by its name) and whether `break` is reached."""
+
+    def effects(self, e, env):
+        env = dict(env)
+        env['@assign'] = {}
+        env['@break'] = False
+        try:
+            self.val(e, env)
+        except Brk:
+            env['@break'] = True
+        except Ret:
+            pass
+        return env['@assign'], env['@break']
+
+    def val(self, e, env):
+        k = e.get('k')
+        if k == 'assign':
+            l = peel(e['lhs'])
+            name = l.get('name') if l.get('k') == 'field' else (l.get('path') or '?').split('#')[0]
+            env['@assign'][name] = self.val(e['rhs'], env)
+            if l.get('k') == 'path':
+                env[l['path']] = env['@assign'][name]
+            return ()
+        if k == 'assignop':
+            l = peel(e['lhs'])
+            name = l.get('name') if l.get('k') == 'field' else (l.get('path') or '?').split('#')[0]
+            try:
+                cur = self.val(e['lhs'], env)
+                rhs = self.val(e['rhs'], env)
+                new = {'+=': cur + rhs, '-=': cur - rhs, '+': cur + rhs, '-': cur - rhs}.get(e.get('op'))
+            except Exception:
+                new = ('unknown',)
+            env['@assign'][name] = new
+            if l.get('k') == 'path':
+                env[l['path']] = new
+            return ()
+        if k == 'break':
+            raise Brk()
+        if k == 'field':
+            name = e.get('name')
+            if ('.' + name) in env:
+                return env['.' + name]
+            raise Unanalysable(f'field `{name}` unbound')
+        return super().val(e, env)
